@@ -333,6 +333,15 @@ def xnode_cases(rng, thorough):
                       "steps": [XO("A", "L", "m1", "right", 0), XO("A", "S", "m2", "right", 1), XO("B", "X", "m2", "right", 1)]})
         legit.append({"mode": "xnode", "tids": [shape, "+|x"], "sep": True,
                       "steps": [XO("A", "S", "m2", "right", 1), XO("B", "X", "m2", "right", 1), XO("A", "L", "m1", "right", 0), XO("B", "T", "m1", "right", 0)]})
+    # a dedicated cross-node connection must lead to the node the record names NOW: tunnel id #0 (mapping 1) on node A with a forward
+    # from node B still open; its record expires; the same client-chosen id is registered under mapping 2 on node C; mapping 2's target
+    # arrives on node B
+    for first_target in (("T", "m1", "right"), ("L", "m1", "none")):
+        for late in (("X", "m2", "right"), ("S", "m2", "none")):
+            legit.append({"mode": "xnode", "tids": ["short"], "reuse": True,
+                          "steps": [XO("A", "L", "m1", "right"), XO("B", *first_target), {"op": "expire", "tun": 0},
+                                    XO("C", "S", "m2", "right"), XO("B", *late)]})
+    legit.append({"mode": "xnode", "tids": ["long"], "steps": [XO("C", "S", "m2", "none"), XO("A", "X", "m2", "right"), XO("B", "X", "m2", "right")]})
     # server-side listener on node A (the server starts the tunnel itself), requesters on the other node
     srv = []
     for who, sec in (("half", "none"), ("half", "right"), ("none", "none"), ("none", "right"), ("X", "right"), ("T", "prefix1")):
@@ -389,6 +398,7 @@ P_RACE = {"mode": "race", "a": dict(who="L", mid="m1", secret="right"), "b": dic
 K_RACE = "race-late-attach-unvalidated"
 K_STALE = "singleflight-stale-read-after-update"
 K_SEP = "target-ready-separator-in-tunnel-id"
+K_REUSE = "dedicated-connection-reused-across-nodes"
 
 
 def race_str(c):
@@ -640,7 +650,7 @@ def run(ctx, only_cases=None):
     hists = h_local + h_route
     houts = run_sharded(binary, h_local, 2) + run_sharded(binary, h_route, 12 if thorough else 6)
     routs = vlib.run_harness(binary, races[:1], timeout=300) + run_sharded(binary, races[1:], 4)
-    xouts = run_sharded(binary, [{k: v for k, v in c.items() if k not in ("shape", "sep")} for c in xcases], 8 if thorough else 4)
+    xouts = run_sharded(binary, [{k: v for k, v in c.items() if k not in ("shape", "sep", "reuse")} for c in xcases], 8 if thorough else 4)
     stale_cases = [{"mode": "stale", "change": ch, "secret": sec} for ch in ("revoked", "exp2s", "inactive") for sec in ("none", "right")]
     souts = run_one(binary, stale_cases, 300) if only_cases is None or any(c.get("mode") == "stale" for c in only_cases) else []
     stale_defect = any(o.get("class") == "stale-read" for o in souts)
@@ -762,7 +772,13 @@ def run(ctx, only_cases=None):
             if K_SEP not in reported:
                 reported.add(K_SEP)
                 ctx.violation(K_SEP, "real two-node cluster [%s]: %s" % (xnode_str(c), o["prop_msg"]),
-                              {"case": {k: v for k, v in c.items() if k not in ("shape", "sep")}, "observed": o})
+                              {"case": {k: v for k, v in c.items() if k not in ("shape", "sep", "reuse")}, "observed": o})
+            continue
+        if c.get("reuse") and o.get("class") == "xnode-attach" and "has what it writes delivered" in o.get("prop_msg", ""):
+            if K_REUSE not in reported:
+                reported.add(K_REUSE)
+                ctx.violation(K_REUSE, "real three-node cluster [%s]: %s" % (xnode_str(c), o["prop_msg"]),
+                              {"case": {k: v for k, v in c.items() if k not in ("shape", "sep", "reuse")}, "observed": o})
             continue
         xfail += 1
         nfail += 1
@@ -951,7 +967,7 @@ def run(ctx, only_cases=None):
         "no-bridge cells run on a fixture without routing table (a legitimate target with no bridge anywhere otherwise polls the routing table for 10 s)",
         "concurrent TunnelOpen packets for the same tunnel id are serialised in the model (one open is atomic); histories in which two requests are parked on one tunnel id at once are checked by the predicate but not diffed (resolution order is the scheduler's)",
         "histories never touch a tunnel id again after its bridge was closed (the real lifecycle goroutine removes map and routing entries asynchronously) and never re-use a connection for a second TunnelOpen",
-        "two nodes: a real two-node cluster inside one process (two SessionManagers over one storage, real routing table, TunnelConnectionManager and CrossNodeListener over loopback TCP); node-to-node frames are trusted by design (the bridge node compares nothing), which is why the record/bridge agreement is checked as an invariant of its own",
+        "nodes: a real three-node cluster inside one process (three SessionManagers over one storage, real routing table, TunnelConnectionManager and CrossNodeListener over loopback TCP); node-to-node frames are trusted by design (the bridge node compares nothing), which is why the record/bridge agreement is checked as an invariant of its own",
         "expiry boundary: the code reads time.Now() directly, so ExpiresAt is set 25 s / 10 s / 2 s / 1 ms before (or 60 s after) the moment the mapping is stored; the request follows within milliseconds",
         "interleavings: request A is atomic with respect to request B (B is parked at ONE point: its n-th storage read of its mapping, or its acknowledgement write), both orders; the model (Base/Threads) covers every schedule of any number of requests at the granularity lookup / create-attach",
         "a parked request is recognised by the harness as: success ack written, no routing record visible, call still inside HandlePacket after 120 ms",
